@@ -417,3 +417,47 @@ package mail
 //@ at mail.msgWriter.addFiles mail.File.setHeader#4 before assert[C02:lemma-disp] nocrlf(arg2)
 //@ at mail.msgWriter.addFiles mail.File.setHeader#5 before assert[C02:lemma-cid-stripped] nocrlf(arg2)
 //@ at mail.msgWriter.addFiles mail.File.setHeader#6 before assert[C02:lemma-cid-default] nocrlf(arg2)
+
+// ---------------------------------------------------------------------------
+// C08  What is signed is what is emitted: header line accounting for signMessage
+//
+// mw.crlfcount (ghost) counts the CRLF pairs writeString has written. msg.headerCount must equal the
+// number of header lines in front of the entity to sign.
+//@ func mail.msgWriter.writeString (s)
+//@   requires[C08:wf] mw != nil
+//@   ensures[C08:counted] mw.err == nil ==> mw.crlfcount == old(mw.crlfcount) + crlfs(s)
+//@   ensures[C08:nothing-on-error] mw.err != nil ==> mw.crlfcount >= old(mw.crlfcount)
+//@   ensures[C08:err-sticky] old(mw.err) != nil ==> mw.err != nil
+//@ at mail.msgWriter.writeString io.WriteString#1 after ghost[C08:g] mw.crlfcount = mw.crlfcount + (r1 == nil ? crlfs(s) : 0)
+//@ func mail.msgWriter.writeHeader (key, values) (lines)
+//@   requires[C08:wf] mw != nil
+//@   ensures[C08:lines-written] mw.err == nil ==> lines == mw.crlfcount - old(mw.crlfcount)
+//@   ensures[C08:err-sticky] old(mw.err) != nil ==> mw.err != nil
+//@ func mail.msgWriter.writeGenHeader (msg)
+//@   requires[C08:wf] mw != nil && msg != nil
+//@   ensures[C08:lines-written] mw.err == nil ==> msg.headerCount - old(msg.headerCount) == mw.crlfcount - old(mw.crlfcount)
+//@   ensures[C08:err-sticky] old(mw.err) != nil ==> mw.err != nil
+//@   loop 2 invariant[C08:lines-written] (old(mw.err) != nil ==> mw.err != nil) && (mw.err == nil ==> msg.headerCount - old(msg.headerCount) == mw.crlfcount - old(mw.crlfcount))
+//@ func mail.msgWriter.writePreformattedGenHeader (msg)
+//@   requires[C08:wf] mw != nil && msg != nil
+//@   ensures[C08:lines-written] mw.err == nil ==> msg.headerCount - old(msg.headerCount) == mw.crlfcount - old(mw.crlfcount)
+//@   ensures[C08:err-sticky] old(mw.err) != nil ==> mw.err != nil
+//@   loop 1 invariant[C08:lines-written] (old(mw.err) != nil ==> mw.err != nil) && (mw.err == nil ==> msg.headerCount - old(msg.headerCount) == mw.crlfcount - old(mw.crlfcount))
+//@ func mail.Msg.WriteTo (writer) (n, err)
+//@   requires[C08:wf] m != nil
+//@   ensures[C08:count-reset] m.headerCount == 0
+//@ func mail.msgWriter.writeMsg (msg)
+//@   requires[C08:wf] mw != nil && msg != nil
+//@   loop 1 invariant[C08:lines-written] (old(mw.err) != nil ==> mw.err != nil) && (mw.err == nil ==> msg.headerCount - old(msg.headerCount) == mw.crlfcount - old(mw.crlfcount))
+//@ at mail.msgWriter.writeMsg mail.Msg.hasSMIME#1 before assert[C08:count-is-header-lines] mw.err == nil ==> msg.headerCount - old(msg.headerCount) == mw.crlfcount - old(mw.crlfcount)
+//@ func mail.Msg.signMessage
+//@   requires[C08:fresh-count] m != nil && m.headerCount == 0
+//@ func mail.Msg.WriteTo (writer) (n, err)
+//@   requires[C08:hist] m.headerCount == 0
+//@ func mail.Msg.WriteToSkipMiddleware (writer, middleWareType) (n, err)
+//@   requires[C08:wf] m != nil
+//@   ensures[C08:count-reset] m.headerCount == 0
+//@ func mail.Msg.applyMiddlewares (msg) (r)
+//@   requires[C08:wf] m != nil && msg != nil
+//@   ensures[C08:nonnil] r != nil
+//@   loop 1 invariant[C08:nonnil] msg != nil
